@@ -468,6 +468,51 @@ theorem replay_log_with_refusals (dev : Device) (nQ : Nat) (ops : List Op)
         exact ih s hd hq hs h3
   exact key ops (SeqState.init dev nQ) rfl rfl rfl h
 
+/-- One more API call keeps a state reachable. -/
+theorem reach_step {dev : Device} {nQ : Nat} {s : SeqState} (hr : C02.Reach dev nQ s) (op : Op) :
+    C02.Reach dev nQ (stepRaw s op).st := by
+  obtain ⟨evs, rfl⟩ := hr
+  refine ⟨evs ++ [Ev.call op], ?_⟩
+  unfold runEv
+  rw [List.foldl_append]
+  rfl
+
+/-- **The state of a sequence is reproducible from its record of successful calls — for every history
+of calls whatsoever**: whatever is called on a fresh sequence (any operations, any arguments, calls that
+succeed and calls that are refused for any reason, in any order), the state equals the replay of the
+recorded calls on a fresh sequence.  No hypothesis on the history is left except that the list of
+allowed off-detunings handed to an EOM call has no duplicates (`NodupOpts`, a well-formedness condition
+on the oracle data of the model, which the implementation's `detuning_off_options` meets). -/
+theorem replay_log_total (dev : Device) (nQ : Nat) (hd : DevOk dev) (ops : List Op)
+    (hn : ∀ op ∈ ops, NodupOpts op) :
+    run (SeqState.init dev nQ) (run (SeqState.init dev nQ) ops).calls = run (SeqState.init dev nQ) ops := by
+  have key : ∀ (ops : List Op) (s : SeqState), C02.Reach dev nQ s → s.dev = dev → s.nQ = nQ →
+      run (SeqState.init dev nQ) s.calls = s → (∀ op ∈ ops, NodupOpts op) →
+      run (SeqState.init dev nQ) (run s ops).calls = run s ops := by
+    intro ops
+    induction ops with
+    | nil => intro s _ _ _ hs _; exact hs
+    | cons op rest ih =>
+      intro s hr hdv hq hs hno
+      have hrun : run s (op :: rest) = run (stepRaw s op).st rest := rfl
+      rw [hrun]
+      have hno' : ∀ o ∈ rest, NodupOpts o := fun o ho => hno o (List.mem_cons_of_mem _ ho)
+      have hr' := reach_step hr op
+      cases herr : (stepRaw s op).err with
+      | none =>
+        rcases step_record s op herr (hno op List.mem_cons_self) with ⟨_, hst⟩ | ⟨op', hc, hdev, hnq, hrep⟩
+        · rw [hst] at hr' ⊢
+          exact ih s hr hdv hq hs hno'
+        · apply ih (stepRaw s op).st hr' (hdev.trans hdv) (hnq.trans hq) _ hno'
+          rw [hc, run_append, hs]
+          show (stepRaw s op').st = (stepRaw s op).st
+          rw [hrep]
+      | some e =>
+        have hst := failed_call_atomic_reachable dev nQ hd s hr op e herr
+        rw [hst] at hr' ⊢
+        exact ih s hr hdv hq hs hno'
+  exact key ops (SeqState.init dev nQ) ⟨[], rfl⟩ rfl rfl rfl hn
+
 /-! ### What the repairs of F2.x changed: the unwrapped steps were not atomic -/
 
 def exCfg : ChanCfg := { clock := 4, minDur := 16, rise := 120, pjt := 240 }
